@@ -2,8 +2,13 @@ package harness
 
 import (
 	"bytes"
+	"context"
+	"errors"
 	"fmt"
+	"github.com/lightningnetwork/lnd/keychain"
+	"net"
 	"strings"
+	"sync"
 	"testing"
 	"time"
 
@@ -188,9 +193,101 @@ func streamCase(r *Recorder, kind string, w, rd streamEnd, writes, ks []int, cla
 	r.Case(fmt.Sprintf("%s:%v:%v", kind, writes, ks), small, class)
 }
 
+// grpcReuseCase: one NoiseGrpcConn object serves two connections in a row (it is the gRPC
+// credentials object). On the first connection a record larger than the reader's buffer is read
+// partially (sequential variant), or a Read is still in flight when the second handshake is
+// started and completes afterwards with such a record (overlap variant). The second connection's
+// reads must return exactly what was written on the second connection.
+func grpcReuseCase(r *Recorder, overlap bool, recLen, bufLen int) {
+	name := fmt.Sprintf("grpc-reuse:overlap=%v:rec=%d:buf=%d", overlap, recLen, bufLen)
+	pass := []byte("pairing-phrase-entropy")
+	cliData := mailbox.NewConnData(&keychain.PrivKeyECDH{PrivKey: key(8101)}, nil, pass, nil, nil, nil)
+	srvData := mailbox.NewConnData(&keychain.PrivKeyECDH{PrivKey: key(8102)}, nil, pass, []byte("auth"), nil, nil)
+	cliNG, srvNG := mailbox.NewNoiseGrpcConn(cliData), mailbox.NewNoiseGrpcConn(srvData)
+	connect := func() (net.Conn, net.Conn, error) {
+		cc, sc := newMemPair()
+		var c, s net.Conn
+		var ce, se error
+		var wg sync.WaitGroup
+		wg.Add(2)
+		ng := cliNG
+		if overlap {
+			// the old connection's client end must stay able to write while the next handshake is in
+			// progress, so the client side of every connection gets its own object here; the object
+			// under test is the server's, which serves both connections
+			ng = mailbox.NewNoiseGrpcConn(cliData)
+		}
+		go func() { defer wg.Done(); c, _, ce = ng.ClientHandshake(context.Background(), "", cc) }()
+		go func() { defer wg.Done(); s, _, se = srvNG.ServerHandshake(sc) }()
+		done := make(chan struct{})
+		go func() { wg.Wait(); close(done) }()
+		select {
+		case <-done:
+		case <-time.After(30 * time.Second):
+			return nil, nil, errors.New("handshake did not finish within 30 s")
+		}
+		if ce != nil || se != nil {
+			return nil, nil, fmt.Errorf("client %v, server %v", ce, se)
+		}
+		return c, s, nil
+	}
+	c1, s1, err := connect()
+	if err != nil {
+		r.Violate("C15/setup", "first connection: "+err.Error(), name)
+		return
+	}
+	old := patterned(recLen, 31)
+	readDone := make(chan int, 1)
+	if overlap {
+		// the old connection's Read is in flight (nothing to read yet) when the second handshake starts
+		go func() { n, _ := s1.Read(make([]byte, bufLen)); readDone <- n }()
+		time.Sleep(100 * time.Millisecond)
+	} else {
+		c1.Write(old)
+		n, _ := s1.Read(make([]byte, bufLen))
+		readDone <- n
+	}
+	type res struct {
+		c, s net.Conn
+		err  error
+	}
+	second := make(chan res, 1)
+	go func() { c, s, err := connect(); second <- res{c, s, err} }()
+	if overlap {
+		time.Sleep(300 * time.Millisecond) // the second handshake has started (and may be waiting for the Read)
+		c1.Write(old)                      // ... now the in-flight Read gets its record
+	}
+	<-readDone
+	r2 := <-second
+	if r2.err != nil {
+		r.Violate("C15/setup", "second connection: "+r2.err.Error(), name)
+		return
+	}
+	fresh := patterned(50, 77)
+	go r2.c.Write(fresh)
+	got := make([]byte, 4096)
+	rd := make(chan int, 1)
+	go func() { n, _ := r2.s.Read(got); rd <- n }()
+	n := 0
+	select {
+	case n = <-rd:
+	case <-time.After(20 * time.Second):
+	}
+	if !bytes.Equal(got[:n], fresh) {
+		r.Violate("C15/bytes-of-previous-connection", fmt.Sprintf("second connection on the same NoiseGrpcConn (first one: %d byte record read with a %d byte buffer, Read in flight during the second handshake: %v): wrote 50 bytes, first Read returned %d bytes, equal: false; starts with the old record's tail: %v",
+			recLen, bufLen, overlap, n, n > 0 && bytes.HasPrefix(old[bufLen:], got[:min(n, len(old)-bufLen)])), name)
+	}
+	r.Case(name, true, "grpc-object-reuse")
+}
+
 func TestC15(t *testing.T) {
 	r := NewRecorder(t, "C15")
 	defer r.Close(t)
+	for _, overlap := range []bool{false, true} {
+		for _, sz := range [][2]int{{1000, 100}, {40000, 4096}, {10, 1}} {
+			grpcReuseCase(r, overlap, sz[0], sz[1])
+		}
+	}
 	rng := newRand(15)
 	cli, srv, cc, sc := quickPair()
 	if cli.Err != nil || srv.Err != nil {
